@@ -424,5 +424,5 @@ package bbolt
 //@   loop 0 invariant b.db == old(b.db) && !b.db.batchMu.held
 //@   skip pre/Update because that the database is ready for the next transaction after Update returns (metas valid, locks free) is the DB invariant established by Commit/Rollback; it is carried by the contracts of those functions only for the first iteration
 
-//@ F [batch.runonce] props C16 : callers bbolt.(*batch).run subset bbolt.(*batch).run$bound, bbolt.(*batch).trigger
-//@ F [batch.trigger] props C16 : callers bbolt.(*batch).trigger subset bbolt.(*DB).Batch, bbolt.(*batch).trigger$bound
+//@ F [batch.runonce] props C16 : callers bbolt.(*batch).run subset bbolt.run$bound, bbolt.(*batch).trigger
+//@ F [batch.trigger] props C16 : callers bbolt.(*batch).trigger subset bbolt.(*DB).Batch, bbolt.trigger$bound
